@@ -463,6 +463,7 @@ class C01(World):
         q = self._queries(np.asarray(fresh.vertices), qsalt)
         kg, got = observe(main, name, q, rs)
         kw, want = observe(fresh, name, q, rs)
+        raw = got if kg == "value" else None
         ctx.count("check:" + name)
         memo = "memo" if name in st["memo_before"] else "cold"
         ctx.reach(st["last_mut"], name, memo)
@@ -493,6 +494,16 @@ class C01(World):
         bad = same(got, want, tol, name)
         if bad:
             ctx.fail(oracle, name, f"after {st['last_mut']} ({memo} before it): {bad}")
+        # a careless caller scribbles on what it was handed (where the library lets it): the mesh must keep reporting values that
+        # are a function of its vertices, faces and overrides. (An override handed out by reference is the caller's own array.)
+        if raw is not None and name not in ("center_mass",) or (name == "center_mass" and "center_mass" not in main._data.data):
+            for arr in (raw if isinstance(raw, (list, tuple)) else [raw]):
+                if isinstance(arr, np.ndarray) and arr.ndim > 0 and arr.size and arr.flags.writeable and arr.dtype.kind in "fiu":
+                    try:
+                        arr[...] = arr * 0 + 7
+                        ctx.count("fault:answer-edited-in-place")
+                    except (ValueError, TypeError):
+                        pass
         ctx.event("read", name, got if not isinstance(got, dict) else sorted(got))
 
     # ------------------------------------------------------------------ mutators
